@@ -8,6 +8,7 @@
   (trusted, DESIGN.md §6).
 -/
 import BB.Proofs.Copy
+import BB.Proofs.RoundTrip
 import BB.Model.Describe
 
 namespace BB.C19
@@ -164,6 +165,156 @@ theorem desc_serialisable (b : BP)
     have h2 := serList_map_ofMark (b.segs.map (·.m2))
     simp only [List.map_map, Function.comp_def] at h1 h2
     simp [J.serFields, J.serialisable, serList_map_ofMark, h1, h2]
+
+/-! ### the whole round trip of a blueprint -/
+
+theorem record_eq (s : Seg) : record s = segRecord s := rfl
+
+/-- the `segment_XX` records, and only they, are picked up as segments -/
+theorem filter_segments (b : BP) (rest : List (String × J))
+    (hrest : ∀ p ∈ rest, hasSub p.1 "segment" = false) :
+    ((((b.segs.zip (List.range b.segs.length)).map (fun (s, i) => (segKey (i + 1), segRecord s))) ++ rest).filter
+        (fun (kv : String × J) => hasSub kv.1 "segment")).map (fun (p : String × J) => p.2) = b.segs.map record := by
+  rw [List.filter_append]
+  have h1 : (((b.segs.zip (List.range b.segs.length)).map (fun (s, i) => (segKey (i + 1), segRecord s))).filter
+      (fun (kv : String × J) => hasSub kv.1 "segment")) = (b.segs.zip (List.range b.segs.length)).map (fun (s, i) => (segKey (i + 1), segRecord s)) := by
+    rw [List.filter_eq_self]
+    intro p hp
+    simp only [List.mem_map] at hp
+    obtain ⟨⟨s, i⟩, _, rfl⟩ := hp
+    exact hasSub_segKey _
+  have h2 : rest.filter (fun (kv : String × J) => hasSub kv.1 "segment") = [] := by
+    rw [List.filter_eq_nil_iff]
+    intro p hp
+    simp [hrest p hp]
+  rw [h1, h2, List.append_nil, List.map_map]
+  have : ∀ (l : List Seg) (k : Nat), ((l.zip (List.range' k l.length)).map ((fun (p : String × J) => p.2) ∘ fun (x : Seg × Nat) => (segKey (x.2 + 1), segRecord x.1))) = l.map record := by
+    intro l
+    induction l with
+    | nil => intro k; rfl
+    | cons x xs ih =>
+      intro k
+      simp only [List.length_cons, List.range'_succ, List.zip_cons_cons, List.map_cons, Function.comp, List.cons.injEq]
+      exact ⟨rfl, ih (k + 1)⟩
+  rw [List.range_eq_range']
+  exact this b.segs 0
+
+theorem setSegMarks_restore (l : List Seg) :
+    setSegMarks (l.map (fun s => stripped s s.name)) (l.map (·.m1)) (l.map (·.m2)) = l := by
+  induction l with
+  | nil => rfl
+  | cons s ss ih =>
+    simp only [List.map_cons, setSegMarks, ih, List.cons.injEq, and_true]
+    obtain ⟨n, f, a, d, p, q⟩ := s
+    rfl
+
+/-- after the loop, the renumbered segments are the original ones without their markers -/
+theorem canon_stripped (b : BP) (h1 : Inv b) (l' : List Seg) (hlen : l'.length = b.segs.length)
+    (hl' : ∀ j (h1 : j < l'.length) (h2 : j < b.segs.length), ∃ nm, basename nm = basename (b.segs[j]).name ∧
+      l'[j] = stripped b.segs[j] nm) :
+    canon l' = b.segs.map (fun s => stripped s s.name) := by
+  have hk : l'.map key = (b.segs.map (fun s => stripped s s.name)).map key := by
+    apply List.ext_getElem
+    · simp [hlen]
+    · intro j h1 h2
+      simp only [List.getElem_map]
+      have hj : j < l'.length := by simpa using h1
+      have hj2 : j < b.segs.length := by simpa using h2
+      obtain ⟨nm, hnm, he⟩ := hl' j hj hj2
+      rw [he]
+      simp [key, stripped, hnm]
+  show renumber (l'.map key) = _
+  rw [hk]
+  have : canon (b.segs.map (fun s => stripped s s.name)) = b.segs.map (fun s => stripped s s.name) := by
+    apply canon_of_inv
+    have : (b.segs.map (fun s => stripped s s.name)).map (·.name) = b.names := by
+      simp [List.map_map, Function.comp_def, stripped, names]
+    rw [this]; exact h1
+  exact this
+
+theorem get_marker_fields (b : BP) (k : String) (v : J)
+    (hk : hasSub k "segment" = false)
+    (hv : List.lookup k [ ("marker1_abs", J.arr (b.marker1.map J.ofMark)), ("marker2_abs", .arr (b.marker2.map J.ofMark))
+      , ("marker1_rel", .arr (b.segs.map (fun s => J.ofMark s.m1)))
+      , ("marker2_rel", .arr (b.segs.map (fun s => J.ofMark s.m2))) ] = some v) :
+    b.toDesc.get? k = some v := by
+  rw [desc_shape]
+  simp only [J.get?]
+  rw [lookup_append_of_not_mem]
+  · exact hv
+  · intro p hp
+    simp only [List.mem_map] at hp
+    obtain ⟨⟨s, i⟩, _, rfl⟩ := hp
+    intro e
+    have := hasSub_segKey (i + 1)
+    simp only at e
+    rw [e, hk] at this
+    cases this
+
+theorem marksOf_arr (j : J) (k : String) (l : List Mark) (h : j.get? k = some (.arr (l.map J.ofMark))) :
+    marksOf j k = .ok l := by
+  unfold marksOf
+  rw [h]
+  simp only
+  rw [marks_roundtrip]
+
+theorem marksOf_desc (b : BP) :
+    marksOf b.toDesc "marker1_abs" = .ok b.marker1 ∧ marksOf b.toDesc "marker2_abs" = .ok b.marker2 ∧
+    marksOf b.toDesc "marker1_rel" = .ok (b.segs.map (·.m1)) ∧ marksOf b.toDesc "marker2_rel" = .ok (b.segs.map (·.m2)) := by
+  have hm := hasSub_marker_keys
+  refine ⟨?_, ?_, ?_, ?_⟩
+  · exact marksOf_arr _ _ _ (get_marker_fields b "marker1_abs" _ hm.1 (by simp [List.lookup]))
+  · exact marksOf_arr _ _ _ (get_marker_fields b "marker2_abs" _ hm.2.1 (by simp [List.lookup]))
+  · apply marksOf_arr
+    rw [get_marker_fields b "marker1_rel" (J.arr (b.segs.map (fun s => J.ofMark s.m1))) hm.2.2.1 (by simp [List.lookup])]
+    simp [List.map_map, Function.comp_def]
+  · apply marksOf_arr
+    rw [get_marker_fields b "marker2_rel" (J.arr (b.segs.map (fun s => J.ofMark s.m2))) hm.2.2.2 (by simp [List.lookup])]
+    simp [List.map_map, Function.comp_def]
+
+/-- **the round trip**: reading back the description of a blueprint over the built-in shapes
+    (reachable through the public API: both naming invariants hold) gives the same blueprint —
+    every name (digits inside included), function, argument, duration, absolute and segment-bound
+    marker — except for the sample rate, which a description does not carry -/
+theorem roundtrip_bp (b : BP) (h1 : Inv b) (h2 : Inv2 b) (hok : ∀ s ∈ b.segs, SegOk s) :
+    BP.ofDesc b.toDesc = .ok { b with SR := .none } := by
+  obtain ⟨l', hlen, hl', hsum⟩ := sumSegs_records b.segs hok h2 0 {} (by rfl)
+  have hfil := filter_segments b
+    [ ("marker1_abs", J.arr (b.marker1.map J.ofMark)), ("marker2_abs", .arr (b.marker2.map J.ofMark))
+    , ("marker1_rel", .arr (b.segs.map (fun s => J.ofMark s.m1)))
+    , ("marker2_rel", .arr (b.segs.map (fun s => J.ofMark s.m2))) ]
+    (by
+      intro p hp
+      have hm := hasSub_marker_keys
+      simp only [List.mem_cons, List.not_mem_nil, or_false] at hp
+      rcases hp with rfl | rfl | rfl | rfl
+      · exact hm.1
+      · exact hm.2.1
+      · exact hm.2.2.1
+      · exact hm.2.2.2)
+  obtain ⟨m1, m2, m3, m4⟩ := marksOf_desc b
+  have hc := canon_stripped b h1 l' hlen hl'
+  have hd := desc_shape b
+  unfold BP.ofDesc
+  rw [hd] at m1 m2 m3 m4 ⊢
+  simp only [hfil, hsum, m1, m2, m3, m4]
+  simp only [List.nil_append, hc, setSegMarks_restore]
+
+/-- … hence for every blueprint built through the public API from built-in shapes -/
+theorem roundtrip_reachable (h : Hist) (hok : ∀ s ∈ h.eval.segs, SegOk s) :
+    BP.ofDesc h.eval.toDesc = .ok { h.eval with SR := .none } :=
+  roundtrip_bp _ (inv_reachable h) (inv2_reachable h) hok
+
+/-- the read-back blueprint compares equal to the original, has the same description, and once
+    given the same sample rate *is* the original (so it forges to identical arrays) -/
+theorem roundtrip_observables (b b' : BP) (h : BP.ofDesc b.toDesc = .ok b') (h1 : Inv b) (h2 : Inv2 b)
+    (hok : ∀ s ∈ b.segs, SegOk s) :
+    b'.beq b = true ∧ b'.toDesc = b.toDesc ∧ ({ b' with SR := b.SR } : BP) = b := by
+  rw [roundtrip_bp b h1 h2 hok] at h
+  cases h
+  refine ⟨?_, rfl, rfl⟩
+  unfold BP.beq BP.names
+  simp
 
 /-! ### non-vacuity -/
 
